@@ -101,6 +101,7 @@ func init() {
 			x.trust("time.Sleep(d) is a ghost tick: sleeps += 1 (lower bound on elapsed time only)")
 			s2 := st.clone()
 			s2.ghosts["sleeps"] = tApp("Int", "+", x.ghostInt(st, "sleeps"), tInt(1))
+			s2.ghosts["iterProgress"] = tTrue
 			k(s2, nil)
 		}},
 		"(*sync.Pool).Get": {run: func(x *Exec, st *State, fr *Frame, ce *ast.CallExpr, recv Term, args []Term, k func(*State, []Term)) {
@@ -141,6 +142,7 @@ func init() {
 			x.trust("sync.WaitGroup: Wait returns after as many Done calls as were Added (happens-before)")
 			s2 := st.clone()
 			s2.ghosts["waited"] = tTrue
+			s2.ghosts["iterProgress"] = tTrue
 			k(s2, nil)
 		}},
 	}
